@@ -66,22 +66,28 @@ def rval_from_sx(x):
 
 # ------------------------------------------------------------------ implementation side
 
+ORIG_CWD = os.getcwd()
+ORIG_HOME = os.environ.get("HOME")
+
+
 class ImplSession:
     """one Interpreter with string stdin/stdout, a private $HOME holding user modules, a scratch cwd"""
 
-    def __init__(self, mods=None, secure=True, legacy=False):
+    def __init__(self, mods=None, secure=True, legacy=False, share_with=None):
         from ckl.interpreter import Interpreter
         from ckl.values import StringInput, StringOutput
-        self.home = tempfile.mkdtemp(prefix="cklhome")
-        self.old_home = os.environ.get("HOME")
-        self.old_cwd = os.getcwd()
+        self.shared = share_with is not None
+        if self.shared:
+            self.home = share_with.home
+        else:
+            self.home = tempfile.mkdtemp(prefix="cklhome")
+            os.makedirs(os.path.join(self.home, ".ckl", "modules"))
+            os.makedirs(os.path.join(self.home, "cwd"))
+            for name, src in (mods or {}).items():
+                with open(os.path.join(self.home, ".ckl", "modules", name), "w", encoding="utf-8") as fh:
+                    fh.write(src)
         os.environ["HOME"] = self.home
-        os.makedirs(os.path.join(self.home, ".ckl", "modules"))
-        os.makedirs(os.path.join(self.home, "cwd"))
         os.chdir(os.path.join(self.home, "cwd"))
-        for name, src in (mods or {}).items():
-            with open(os.path.join(self.home, ".ckl", "modules", name), "w", encoding="utf-8") as fh:
-                fh.write(src)
         self.it = Interpreter(secure, legacy)
         self.out = StringOutput()
         self.it.setStandardOutput(self.out)
@@ -108,12 +114,13 @@ class ImplSession:
         return outcome, self.out.output, syms
 
     def close(self):
-        os.chdir(self.old_cwd)
-        if self.old_home is None:
+        os.chdir(ORIG_CWD)
+        if ORIG_HOME is None:
             os.environ.pop("HOME", None)
         else:
-            os.environ["HOME"] = self.old_home
-        shutil.rmtree(self.home, ignore_errors=True)
+            os.environ["HOME"] = ORIG_HOME
+        if not self.shared:
+            shutil.rmtree(self.home, ignore_errors=True)
 
 
 # ------------------------------------------------------------------ model side
